@@ -233,20 +233,44 @@ func ruleHNSWOrder(r *Run, p string) {
 		okPrefix := false
 		allInstrs(fn, func(in ssa.Instruction) {
 			st, ok := in.(*ssa.Store)
-			if !ok || !domInstr(sortCall, st) {
+			if !ok {
 				return
 			}
 			ia, ok := st.Addr.(*ssa.IndexAddr)
 			if !ok {
 				return
 			}
+			ph, ok := ia.Index.(*ssa.Phi)
+			if !ok {
+				return
+			}
+			sorted := domInstr(sortCall, st)
+			if !sorted {
+				// single copy loop shared by the "everything fits" and the "truncate" case: for i := 0; i < keep; i++ with
+				// keep = φ(len(candidates), bound chosen after the sort)
+				if init, bound, isLoop := countedLoop(ph); isLoop && init == 0 {
+					if bp, ok := bound.(*ssa.Phi); ok && reachAvoid(fn, st, func(x ssa.Instruction) bool { return x == sortCall }, func(ssa.Instruction) bool { return false }) == nil {
+						sorted = true
+						for j, e := range bp.Edges {
+							pred := bp.Block().Preds[j]
+							if c.S(e) == "len(P1)" {
+								continue // nothing is dropped on this edge
+							}
+							if !(sortCall.Block() == pred || sortCall.Block().Dominates(pred)) {
+								sorted = false
+							}
+						}
+					}
+				}
+			}
+			if !sorted {
+				return
+			}
 			vs := c.S(st.Val)
 			if strings.HasSuffix(vs, "["+c.S(ia.Index)+"].id") {
-				if ph, ok := ia.Index.(*ssa.Phi); ok {
-					for _, e := range ph.Edges {
-						if isZeroConst(e) {
-							okPrefix = true
-						}
+				for _, e := range ph.Edges {
+					if isZeroConst(e) {
+						okPrefix = true
 					}
 				}
 			}
